@@ -33,6 +33,13 @@ Parameter-coverage additions (audit of every sampler x every parameter):
   restarts), more than exist -> ValueError (never a short or repeated result), max_rep < 0.
 * C14.sample_lhs.counts_at: floor / ceil rule for single (n, m) with n = 300, 33000, 70000 and m = 1, n-1, n, n+1, >> n,
   m a multiple of every mode; n as float array / m as float.
+* independence of the rows (few rows per call): the auditing generator also records `replace`; every `choice` call that
+  draws more than one index must draw WITH replacement (`_independent`, part of every chain audit).  chain_random with
+  2 <= m <= n[0] (first modes 5 .. 300); C14.sample.gof_few_rows / C14.sample_square.gof_few_rows: 250 (thorough 3000) calls
+  with m rows each, 2 <= m <= n[0], one first-mode slice boosted by 4 (non-uniform marginal), int seeds or one generator
+  object: frequencies of all runs*m rows within 7 sigmas AND rows 0 / 1 of a call coincide (first index, whole row) with
+  the frequency sum p0^2 / sum p^2 of independent draws; C14.sample_square.unique_first_draw: the m_fact*m candidate rows
+  of unique=True (m_fact*m <= n[0]) are drawn with replacement from the exact marginal.
 # DOUBTFUL (not yielded): sample_tt(n) with n given as floats (the docstring allows "int/float") raises TypeError
 # (range(n[i])), e.g. sample_tt(np.array([3., 4.]), 2, seed=1); sample_lhs / sample_rand accept float n.
 # float_cf of sample_square returns non-integer "indices" by design and is outside the statement.
@@ -50,7 +57,9 @@ BOUNDS = ('chain audits: 14 shapes with <= 24 entries (quick) / 24 shapes with <
           'ranks 1..3, integer cores (zeros allowed; signed cores of non-negative tensors), every multi-index scripted once, '
           'per-core scales 2^-200 .. 2^300, unsert in {default, 0, 1e-10, 1e-3}; gof: 4000 / 20000 draws; '
           'LHS: mode sizes 1..9, m = 1..29, and n in {300, 33000, 70000} at selected m; sample_tt: 11 shapes x r in 1..5; '
-          'sample_square unique: m up to the number of non-zero entries, m_fact in {1,2,5}, max_rep in {-1,0,1,100}')
+          'sample_square unique: m up to the number of non-zero entries, m_fact in {1,2,5}, max_rep in {-1,0,1,100}; '
+          'few rows per call (2 <= m <= n[0], n[0] = 4 .. 300): replace flag of every recorded draw, 250 / 3000 calls x m rows '
+          'goodness of fit + pairwise independence of rows 0 / 1, unique=True candidates with m_fact*m <= n[0]')
 
 SHAPES_Q = [[2, 3], [3, 2], [4, 6], [1, 5], [5, 1], [2, 2, 2], [3, 2, 2], [2, 3, 4], [1, 3, 2], [3, 1, 4], [2, 2, 2, 3],
             [2, 1, 2, 2], [2, 2, 2, 2], [3, 2, 1, 4]]
@@ -114,10 +123,24 @@ def _call(fn, Y, m, g, unsert):
     return teneva.sample_square(Y, m, unique=False, seed=g)
 
 
+def _independent(log):
+    """every `choice` call that draws more than one index must draw WITH replacement (the rows are independent draws from
+    the distribution; without replacement the indices of one call are forced to be distinct)"""
+    for c, e in enumerate(log):
+        cnt = 1 if e['size'] is None else int(np.prod(e['size']))
+        if cnt > 1 and not e['replace']:
+            return (f'choice call #{c} draws {cnt} of {e["a"]} indices with replace={e["replace"]!r}: the rows are not '
+                    f'independent draws from the distribution')
+    return None
+
+
 def _audit(fn, Y, W, total, I, log, tol_first, tol):
     """Relate the recorded draws to the returned rows and compare every conditional with the dense one."""
     M, d = I.shape
     n = list(W.shape)
+    msg = _independent(log)
+    if msg:
+        return msg
     draws = []      # (call number, position in call, value)
     for c, e in enumerate(log):
         for pos, v in enumerate(np.atleast_1d(e['r']).reshape(-1)):
@@ -358,6 +381,110 @@ def sample_gof(n, r, seed, m):
 def sample_square_gof(n, r, seed, m):
     """The same fallback for sample_square(unique=False) and squared entries."""
     return _gof('sample_square', n, r, seed, m)
+
+
+def _tensor_skewed(n, r, seed, square):
+    """_tensor with one slice of the FIRST core multiplied by 4: the first-mode marginal is far from uniform"""
+    Y, W, total = _tensor(n, r, seed, square)
+    if total == 0:
+        return Y, W, total
+    Y = [G.copy() for G in Y]
+    Y[0][:, seed % n[0], :] *= 4.0
+    D = gen.dense_exact(Y)
+    W = np.vectorize(lambda v: v * v if square else v, otypes=[object])(D)
+    return Y, W.astype(float), int(W.sum())
+
+
+def _gof_few(fn, n, r, seed, m, runs, genobj):
+    """`runs` calls with m rows each (m <= n[0] is the point: few rows, first mode at least as large).  All runs * m rows
+    are independent draws: every multi-index within 7 binomial sigmas; rows 0 and 1 of a call are independent: the
+    frequency of `equal first index` / `equal row` within 7 sigmas of sum p0^2 / sum p^2."""
+    square = fn == 'sample_square'
+    Y, W, total = _tensor_skewed(n, r, seed, square)
+    if total == 0:
+        return SKIP('zero tensor')
+    P = W / total
+    P0 = P.reshape(n[0], -1).sum(axis=1)
+    g = np.random.default_rng(seed) if genobj else None
+    cnt = np.zeros(W.shape)
+    eq0 = eqrow = 0
+    snap = gen.snapshot(Y)
+    for j in range(runs):
+        sd = g if genobj else seed + 7919 * j
+        try:
+            I = teneva.sample(Y, m, seed=sd) if not square else teneva.sample_square(Y, m, unique=False, seed=sd)
+        except Exception as e:
+            return FAIL(f'{fn}(m={m}) raised {type(e).__name__}: {str(e)[:200]} in run {j}')
+        if not isinstance(I, np.ndarray) or I.shape != (m, len(n)) or I.dtype.kind not in 'iu':
+            return FAIL(f'shape {getattr(I, "shape", None)} dtype {getattr(I, "dtype", None)}')
+        if I.min() < 0 or np.any(I.max(axis=0) >= np.array(n)):
+            return FAIL('index outside the tensor bounds')
+        np.add.at(cnt, tuple(I.T), 1)
+        if m >= 2:
+            eq0 += int(I[0, 0] == I[1, 0])
+            eqrow += int(np.array_equal(I[0], I[1]))
+    if gen.snapshot(Y) != snap:
+        return FAIL('argument tensor modified')
+    N = runs * m
+    dev = np.abs(cnt / N - P)
+    lim = 7 * np.sqrt(P * (1 - P) / N) + 1.0 / N + (1e-9 if not square else 0)
+    if np.any(dev > lim) or np.any(cnt[P == 0] > 0):
+        k = np.unravel_index(int(np.argmax(dev - lim)), W.shape)
+        f0 = cnt.reshape(n[0], -1).sum(axis=1) / N
+        return FAIL(f'multi-index {list(map(int, k))}: frequency {cnt[k] / N:.5f}, probability {P[k]:.5f} ({runs} calls with '
+                    f'm={m} rows); first-mode frequencies {np.round(f0, 3).tolist()}, marginal {np.round(P0, 3).tolist()}')
+    if m >= 2:
+        for name, got, q in (('first index', eq0, float((P0 ** 2).sum())), ('row', eqrow, float((P ** 2).sum()))):
+            if not abs(got / runs - q) <= 7 * math.sqrt(q * (1 - q) / runs) + 1.0 / runs:
+                return FAIL(f'rows 0 and 1 of a call have the same {name} in {got} of {runs} calls (m={m}); independent draws: '
+                            f'probability {q:.4f}')
+    return PASS
+
+
+@clause('C14.sample.gof_few_rows', funcs=('sample.sample',))
+def sample_gof_few_rows(n, r, seed, m, runs, genobj):
+    """sample with FEW rows per call (2 <= m <= n[0], non-uniform first-mode marginal), many calls (int seeds or one
+    generator object): every row is a draw from entry/total and the rows of one call are independent."""
+    return _gof_few('sample', n, r, seed, m, runs, genobj)
+
+
+@clause('C14.sample_square.gof_few_rows', funcs=('sample.sample_square', 'sample._sample_core_first'))
+def sample_square_gof_few_rows(n, r, seed, m, runs, genobj):
+    """The same for sample_square(unique=False) and squared entries."""
+    return _gof_few('sample_square', n, r, seed, m, runs, genobj)
+
+
+@clause('C14.sample_square.unique_first_draw', funcs=('sample.sample_square', 'sample._sample_core_first'))
+def sample_square_unique_first_draw(n, r, seed, m, m_fact):
+    """unique=True with m_fact * m <= n[0] candidate rows: the candidates are independent draws as well - the first
+    indices are m_fact * m draws WITH replacement from the exact first-mode marginal of the squared tensor (audited
+    generator), every later `choice` is a single draw; the result has m distinct rows of positive weight."""
+    Y, W, total = _tensor_skewed(n, r, seed, True)
+    if total == 0:
+        return SKIP('zero tensor')
+    if int(np.count_nonzero(W)) < 4 * m:
+        return SKIP('too few entries of non-zero weight for a bounded number of restarts')
+    g = Audit(seed)
+    try:
+        I = teneva.sample_square(Y, m, True, g, m_fact)
+    except Exception as e:
+        return FAIL(f'sample_square raised {type(e).__name__}: {str(e)[:200]}')
+    if not g.log:
+        return FAIL('no draw went through the generator passed as seed')
+    msg = _independent(g.log)
+    if msg:
+        return FAIL(msg)
+    e = g.log[0]
+    P0 = W.reshape(n[0], -1).sum(axis=1) / total
+    cnt = 1 if e['size'] is None else int(np.prod(e['size']))
+    if cnt != m_fact * m or e['p'] is None or len(e['p']) != n[0] or not np.max(np.abs(e['p'] - P0)) <= 1e-10:
+        return FAIL(f'first draw: {cnt} indices with p = {None if e["p"] is None else e["p"].tolist()}, expected {m_fact * m} '
+                    f'draws from the marginal {P0.tolist()}')
+    if not isinstance(I, np.ndarray) or I.shape != (m, len(n)) or I.dtype.kind not in 'iu':
+        return FAIL(f'result shape {getattr(I, "shape", None)} dtype {getattr(I, "dtype", None)}')
+    if len({tuple(r_) for r_ in I.tolist()}) != m or any(W[tuple(r_)] == 0 for r_ in I.tolist()):
+        return FAIL(f'rows not distinct or of zero weight: {I.tolist()}')
+    return PASS
 
 
 SAMPLERS = ('sample', 'sample_square', 'sample_square_unique', 'sample_lhs', 'sample_rand', 'sample_rand_poi',
@@ -610,3 +737,19 @@ def cases(tier, seed):
             for rep in range(2 if big else 1):
                 yield 'C14.sample_tt.layout', dict(n=n, r=r, seed=rs(), genobj=bool((r + rep) % 2),
                                                    as_array=bool(r % 2))
+    # ---- few rows per call: 2 <= rows <= size of the first mode (the draws of one call must still be independent) ----
+    for n in ([6, 3, 2], [8, 2], [5, 2, 2], [300, 2]) + (([4, 6], [7, 1, 3], [12, 3], [9, 2, 2, 2], [40, 2]) if big else ()):
+        for r in ((1, 2, 3) if big else (1, 2)):
+            for m in sorted({2, max(2, n[0] // 2), n[0] - 1, n[0]}):
+                yield 'C14.sample.chain_random', dict(n=n, r=r, seed=rs(), m=m)
+                yield 'C14.sample_square.chain_random', dict(n=n, r=r, seed=rs(), m=m)
+    few = (([6, 3, 2], 2, (2, 3, 6)), ([4, 3], 1, (2,)))
+    if big:
+        few += (([6, 3, 2], 1, (2, 4)), ([4, 3], 2, (3, 4)), ([8, 2, 2], 2, (3, 8)), ([5, 4], 3, (2, 5)), ([10, 2], 2, (4, 10, 11)))
+    for n, r, ms in few:
+        for m in ms:
+            for cid in ('C14.sample.gof_few_rows', 'C14.sample_square.gof_few_rows'):
+                yield cid, dict(n=n, r=r, seed=rs(), m=m, runs=3000 if big else 250, genobj=bool((m + r) % 2))
+    for n, m, m_fact in (([10, 3], 2, 5), ([12, 2, 2], 2, 5), ([6, 4], 3, 2), ([6, 2, 3], 6, 1), ([300, 2], 40, 5), ([25, 2], 5, 5)):
+        for r in (1, 2, 3):
+            yield 'C14.sample_square.unique_first_draw', dict(n=n, r=r, seed=rs(), m=m, m_fact=m_fact)
